@@ -56,12 +56,18 @@ class Ctx:
         return cond
 
     def floor(self, what, count, minimum):
-        """Fail closed when the rule matched fewer instances than were counted by hand on
-        the pinned tree: a rule that matches nothing passes vacuously forever."""
+        """Fail closed when the rule matched nothing (a rule that matches nothing passes vacuously forever); report an
+        abstention when it matched fewer instances than were counted by hand on the pinned tree."""
         self.analysed[what] = count
-        if count < minimum:
+        if count == 0 and minimum > 0:
             self.obs.append(Ob(self.rule, "anchor-missing:%s" % what, "-", VIOLATED,
-                               "anchor missing: found %d %s, expected at least %d (the rule would pass vacuously)"
+                               "anchor missing: found no %s, expected at least %d (the rule would pass vacuously)"
+                               % (what, minimum)))
+        elif count < minimum:
+            # some instances are gone (merged into a helper, rewritten in an idiom the rule does not read): the rule still
+            # judges what it found, but it no longer covers what was confirmed by hand on the pinned tree: an abstention, not an alarm
+            self.obs.append(Ob(self.rule, "coverage-reduced:%s" % what, "-", UNCLASSIFIED,
+                               "found %d %s where the pinned tree has at least %d: part of what this rule covered is no longer in a form it reads"
                                % (count, what, minimum)))
         else:
             self.obs.append(Ob(self.rule, "floor:%s" % what, "-", DISCHARGED,
